@@ -109,7 +109,7 @@ pub fn gen_cases(tier: Tier, core: Core) -> Vec<Case> {
         by_mnem.entry(c.mnem).or_default().push(c);
     }
     let mut out: Vec<Case> = vec![];
-    let nreps = if tier.thorough() { 4 } else { 2 };
+    let nreps = if tier.thorough() { 5 } else { 2 };
     for (mn, v) in by_mnem.iter() {
         let mut reps: Vec<&ICase> = vec![];
         for i in 0..nreps {
@@ -159,7 +159,7 @@ pub fn gen_cases(tier: Tier, core: Core) -> Vec<Case> {
                         .get(&(base.mnem, p))
                         .unwrap_or_else(|| machinery_fail(&format!("no numeric range for {} pos {}", base.mnem, p)));
                     let w = if tier.thorough() {
-                        if hi - lo >= 255 { 1200 } else { 320 }
+                        if hi - lo >= 255 { 6000 } else { 1500 }
                     } else if hi - lo >= 255 && hi - lo < 1000 {
                         300
                     } else if hi - lo >= 1000 {
